@@ -21,7 +21,7 @@ func init() {
 		Technique: "must-facts at the vote call and at the action effects (member, threshold literal over the same key list), exit-fact exclusion of the action on the quiet return, operator-normalised boundary agreement of the 20-block window between sibling functions, term check of the refreshed ballot, membership-loop dominance of the voter insertion",
 		Explanation: "For cheque, alphabetUpdate, setConfig and innerRingCandidateRemove in notary-disabled mode: D1 the voter passed to common.Vote is established non-empty and is the element of the stored Alphabet list whose witness was checked. " +
 			"D2 the action's effects are reachable only under ¬(n < ⌊2·len(K)/3⌋+1) with n the result of that Vote call and K the same stored list, the return under n < threshold executes none of them, and RemoveVotes is called with the same decision id before the action. " +
-			"D3 Vote treats a ballot as expired exactly when TryPurgeVotes does not treat it as alive (gap > 20, the same constant), a counted vote stores the ballot with Height = current height and a new ballot starts at the current height. D4 distinct-principal counting: the voter is appended only after it was compared with every recorded voter and found different; the count returned is the length of the voter list; ballots of other ids are carried over unchanged. M: vote actions fire at every non-quiet return; common.Vote keeps a ballot only on the not-expired side, appends a new ballot only when none was found and visits every ballot; TryPurgeVotes answers false only on the alive side and purges after all were found expired; RemoveVotes removes at the index of the id match; loaders getBallots/getAlphabetNodes. R6: the ballot id handed to Vote may depend on the decision id the method was called with (SSA backward slice; certain independence is reported).",
+			"D3 Vote treats a ballot as expired exactly when TryPurgeVotes does not treat it as alive (gap > 20, the same constant), a counted vote stores the ballot with Height = current height and a new ballot starts at the current height. D4 distinct-principal counting: the voter is appended only after it was compared with every recorded voter and found different; the count returned is the length of the voter list; ballots of other ids are carried over unchanged. M: vote actions fire at every non-quiet return; common.Vote keeps a ballot only on the not-expired side, appends a new ballot only when none was found and visits every ballot; TryPurgeVotes answers false only on the alive side and purges after all were found expired; RemoveVotes removes at the index of the id match; loaders getBallots/getAlphabetNodes. R6: the ballot id handed to Vote may depend on the decision id the method was called with (SSA backward slice; certain independence is reported). R10: the stored layout of common.Ballot is decided here as well.",
 		NotCovered: "timing over block schedules and competing ids at run time; the notary-enabled branch is C03.",
 		Run:        runC17,
 	})
@@ -291,6 +291,7 @@ func voteProtocol(cx *CheckCtx, names []string) int {
 
 func runC17Common(cx *CheckCtx, w *World) {
 	checkLoaders(cx, "common")
+	checkStoredLayouts(cx, "common")
 	checkLoaders(cx, "contracts/neofs")
 	// ---- common.Vote / TryPurgeVotes
 	voteFn := cx.pkgFunc("common", "Vote")
